@@ -74,6 +74,15 @@ let handle op args = match op, args with
     Hashtbl.replace ts.hdrs id hd;
     let (tr', c) = accept ts hd in
     ts.tr <- tr'; after_accept ts hd c
+  | "load", [t; id; parent; time; bits] ->
+    (* loadBlockForward(fast_load): insertion without any check; the best tip is not observed on such trees *)
+    let ts = get t in
+    let proof = (match ts.kind with KBtc _ -> btc_block_proof | KVbk _ -> vbk_block_proof) in
+    let (tr', ok) = insert_header proof ts.tr (z_of_hex id) (z_of_hex parent) (z_of_hex time) (z_of_hex bits) in
+    ts.tr <- tr';
+    let b = find_blk ts.tr.t_blocks (z_of_hex id) in
+    Printf.sprintf "%s work=%s h=%s" (if ok then "ok" else "fail")
+      (match b with Some b -> hex_of_z b.k_work | None -> "-") (match b with Some b -> hex_of_z b.k_height | None -> "-")
   | "dup", [t; id] ->
     let ts = get t in
     let hd0 = (try Hashtbl.find ts.hdrs id with Not_found -> failwith "dup of unknown header") in
